@@ -121,6 +121,20 @@ Section CB.
     split; apply (bern_param N); ring.
   Qed.
 
+  (* the repaired relocation t1_adj = (t1 - t0)/(1 - t0): NO oracle premise *)
+  Theorem crop_bern_analytic (Heq : eqb_sound N) p t0 t1 o u : p <> [] -> t0 <> one N ->
+    bern N (crop_bezier_v N true p t0 t1 o) u = bern N p (add N t0 (mul N u (sub N t1 t0))).
+  Proof. intros Hp H1. unfold crop_bezier_v, crop_adj. apply (crop_bern Heq); auto. Qed.
+  Theorem crop_ends_analytic (Heq : eqb_sound N) p t0 t1 o : p <> [] -> t0 <> one N ->
+    crop_bezier_v N true p t0 t1 o <> [] /\
+    length (crop_bezier_v N true p t0 t1 o) = length p /\
+    hd C0 (crop_bezier_v N true p t0 t1 o) = bern N p t0 /\
+    last (crop_bezier_v N true p t0 t1 o) C0 = bern N p t1.
+  Proof. intros Hp H1. unfold crop_bezier_v, crop_adj. apply (crop_ends Heq); auto. Qed.
+  (* the pinned variant is the oracle version *)
+  Lemma crop_bezier_v_pinned p t0 t1 o : crop_bezier_v N false p t0 t1 o = crop_bezier N p t0 t1 o.
+  Proof. reflexivity. Qed.
+
   (* the oracle premise is necessary in general: if the relocated parameter is
      t1adj, the cropped piece ends at p(t0 + t1adj (1 - t0)), whatever t1 is *)
   Theorem crop_bern_any_adj p t0 t1 t1adj u : p <> [] ->
@@ -159,3 +173,24 @@ Section CB.
     cring.
   Qed.
 End CB.
+
+(* over the reals, for the documented domain 0 <= t0 < t1 <= 1: the repaired crop_bezier
+   returns (its asserts hold) and is the piece from t0 to t1 *)
+From Coq Require Import Reals Lra.
+Local Open Scope R_scope.
+Theorem crop_analytic_R (p : list (Cplx R)) (t0 t1 o u : R) : p <> [] -> 0 <= t0 < t1 -> t1 <= 1 ->
+  crop_bezier_res_v NumR true p t0 t1 o = Ok (crop_bezier_v NumR true p t0 t1 o) /\
+  bern NumR (crop_bezier_v NumR true p t0 t1 o) u = bern NumR p (t0 + u * (t1 - t0)).
+Proof.
+  intros Hp H01 H1. split.
+  - unfold crop_bezier_res_v, crop_bezier_res, crop_bezier_v, crop_bezier_pre, crop_adj.
+    cbn [ltb eqb zero one NumR sub div].
+    assert (A : Rlt_b t0 t1 = true) by (apply Rlt_b_true; lra). rewrite A. cbn [andb].
+    destruct (Req_b t0 0) eqn:E0; [reflexivity|]. destruct (Req_b t1 1) eqn:E1; [reflexivity|].
+    cbn [orb].
+    assert (B : Rlt_b t0 1 = true) by (apply Rlt_b_true; lra). rewrite B. cbn [andb].
+    assert (C : Rlt_b 0 ((t1 - t0) / (1 - t0)) = true).
+    { apply Rlt_b_true. apply Rdiv_lt_0_compat; lra. }
+    rewrite C. reflexivity.
+  - apply (crop_bern_analytic NumR NumR_ok eqb_sound_R); [exact Hp|]. cbn [one NumR]. lra.
+Qed.
